@@ -728,6 +728,13 @@ class Engine:
             raise Refuse('list index ' + type(idx).__name__)
         if isinstance(base, SymMem):
             return self.mem_store(base, idx, v, node)
+        if isinstance(base, DictModel):
+            i = base.find(idx)
+            if i >= 0:
+                base.pairs[i] = (idx, v)
+            else:
+                base.pairs.append((idx, v))
+            return
         if isinstance(base, BankRef):
             if not isinstance(idx, (int, SV, SB)):
                 raise Refuse('bank slice store')
@@ -924,12 +931,58 @@ class Engine:
                     conv = {-1: '', 115: '!s', 114: '!r', 97: '!a'}[v.conversion]
                     parts.append(('{0%s:%s}' % (conv, spec)).format(x))
             return ''.join(parts)
-        if isinstance(e, (ast.ListComp, ast.GeneratorExp, ast.SetComp, ast.DictComp, ast.Lambda, ast.Dict, ast.Set)):
+        if isinstance(e, (ast.ListComp, ast.GeneratorExp)):
+            return self.ev_comprehension(e)
+        if isinstance(e, (ast.SetComp, ast.DictComp, ast.Lambda, ast.Dict, ast.Set)):
             return self.ev_native(e)
         raise Refuse('expression ' + type(e).__name__)
 
     def _refuse(self, msg):
         raise Refuse(msg)
+
+    def ev_comprehension(self, e):
+        """List comprehension / generator expression over concrete iterables
+        (elements may be symbolic). A generator expression is materialised."""
+        fr = self.frames[-1]
+        saved = dict(fr.loc)
+        out = []
+
+        def rec(k):
+            if k == len(e.generators):
+                out.append(self.ev(e.elt))
+                return
+            g = e.generators[k]
+            if g.is_async:
+                raise Refuse('async comprehension')
+            it = self.ev(g.iter)
+            if isinstance(it, SymList):
+                it = list(it.items)
+            if isinstance(it, Unknown):
+                raise Refuse('comprehension over unknown')
+            if not isinstance(it, (tuple, list, range, str, bytes, bytearray, dict, zip, enumerate)):
+                raise Refuse('comprehension over ' + type(it).__name__)
+            for x in it:
+                self.assign(g.target, x)
+                ok = True
+                for c in g.ifs:
+                    t = truth(self.ev(c))
+                    if not isinstance(t, bool):
+                        raise Refuse('comprehension filter on a symbolic condition')
+                    if not t:
+                        ok = False
+                        break
+                if ok:
+                    rec(k + 1)
+        try:
+            rec(0)
+        finally:
+            # comprehension variables do not leak
+            for name in list(fr.loc):
+                if name not in saved:
+                    del fr.loc[name]
+            for name, v in saved.items():
+                fr.loc[name] = v
+        return SymList(out) if isinstance(e, ast.ListComp) else tuple(out)
 
     def ev_native(self, e):
         """Evaluate an expression natively when all names it reads are concrete."""
@@ -1078,6 +1131,11 @@ class Engine:
             raise Refuse('memory slice')
         if isinstance(base, TabRef):
             return self.tab_index(base, idx, node)
+        if isinstance(base, DictModel):
+            i = base.find(idx)
+            if i < 0:
+                raise _Raise(KeyError(repr(idx)))
+            return base.pairs[i][1]
         if isinstance(base, BankTuple):
             if isinstance(idx, int):
                 if not -base.count <= idx < base.count:
@@ -1167,6 +1225,21 @@ class Engine:
                     return m
             self.oblige('attr_defined', False, node, info=attr)
             raise PathEnd()
+        if isinstance(obj, DictModel):
+            if attr == 'get':
+                def dget(e, args, kwargs, node, obj=obj):
+                    i = obj.find(args[0])
+                    return obj.pairs[i][1] if i >= 0 else (args[1] if len(args) > 1 else None)
+                return CallModel(dget, 'dict.get')
+            if attr == 'setdefault':
+                def dsd(e, args, kwargs, node, obj=obj):
+                    i = obj.find(args[0])
+                    if i >= 0:
+                        return obj.pairs[i][1]
+                    obj.pairs.append((args[0], args[1] if len(args) > 1 else None))
+                    return obj.pairs[-1][1]
+                return CallModel(dsd, 'dict.setdefault')
+            raise Refuse('dict method ' + attr)
         if is_sym(obj) or isinstance(obj, (SymList, SymMem, TabRef)):
             if isinstance(obj, SymList) and attr in ('append', 'extend', 'insert', 'pop', 'index', 'count', 'copy'):
                 return ('listmethod', obj, attr)
@@ -1280,6 +1353,8 @@ class Engine:
             a = args[0]
             if isinstance(a, SymList):
                 return len(a.items)
+            if isinstance(a, (tuple, list)):
+                return len(a)
             if isinstance(a, SymMem):
                 return a.size
             if isinstance(a, TabRef):
@@ -1300,6 +1375,13 @@ class Engine:
                 return issubclass(list, t) if isinstance(t, type) else any(issubclass(list, x) for x in t)
         if name in ('all', 'any') and len(args) == 1 and isinstance(args[0], BankTuple):
             return True
+        if name == 'sum' and len(args) in (1, 2):
+            seq = args[0].items if isinstance(args[0], SymList) else args[0]
+            if isinstance(seq, (tuple, list)) and all(isinstance(x, (int, SV, SB)) for x in seq):
+                acc = args[1] if len(args) == 2 else 0
+                for x in seq:
+                    acc = binop('+', acc, x)
+                return acc
         if name in ('min', 'max') and args and all(isinstance(a, (int, SV, SB)) for a in args) and not kwargs:
             res = args[0]
             for a in args[1:]:
@@ -1370,6 +1452,34 @@ class BankTuple:
         self.count = count
 
 
+class DictModel:
+    """dict whose keys may contain symbolic values: keys are compared
+    structurally by object identity of their symbolic parts."""
+
+    def __init__(self, name='dict'):
+        self.name = name
+        self.pairs = []
+
+    @staticmethod
+    def _same(a, b):
+        if a is b:
+            return True
+        if isinstance(a, tuple) and isinstance(b, tuple) and len(a) == len(b):
+            return all(DictModel._same(x, y) for x, y in zip(a, b))
+        if is_sym(a) or is_sym(b):
+            return False
+        try:
+            return a == b
+        except Exception:
+            return False
+
+    def find(self, key):
+        for i, (k, v) in enumerate(self.pairs):
+            if self._same(k, key):
+                return i
+        return -1
+
+
 class CallModel:
     def __init__(self, handler, name='callmodel'):
         self.handler = handler
@@ -1377,7 +1487,7 @@ class CallModel:
 
 
 def _is_model(a):
-    if is_sym(a) or isinstance(a, (SymList, SymMem, TabRef, ObjModel, Unknown, CallModel, BankRef, BankTuple, BoundModelMethod)):
+    if is_sym(a) or isinstance(a, (SymList, SymMem, TabRef, ObjModel, Unknown, CallModel, BankRef, BankTuple, BoundModelMethod, DictModel)):
         return True
     if isinstance(a, (tuple, list)):
         return any(_is_model(x) for x in a)
